@@ -68,6 +68,44 @@ class Failure:
         return (self.site, self.cls)
 
 
+def source_fingerprint(path) -> str:
+    """Fingerprint of a source file that ignores formatting, comments, docstrings and positions (Python: the AST dump;
+    other files: the text with blank lines and surrounding whitespace removed)."""
+    import ast
+
+    try:
+        text = Path(path).read_text()
+    except OSError:
+        return "missing"
+    if str(path).endswith(".py"):
+        try:
+            tree = ast.parse(text)
+        except SyntaxError:
+            return "unparsable"
+        for node in ast.walk(tree):
+            body = getattr(node, "body", None)
+            if (isinstance(body, list) and body and isinstance(body[0], ast.Expr)
+                    and isinstance(body[0].value, ast.Constant) and isinstance(body[0].value.value, str)):
+                node.body = body[1:] or [ast.Pass()]
+        text = ast.dump(tree, annotate_fields=False, include_attributes=False)
+    else:
+        text = "\n".join(x.strip() for x in text.splitlines() if x.strip())
+    return hashlib.sha256(text.encode()).hexdigest()[:20]
+
+
+def sources_changed(prop: str) -> list[str]:
+    """Anchor files of the property whose source differs from the pinned fingerprint (harness/model_pins.json,
+    DESIGN §3.1).  Not a failure: it only raises the sampling budget of this run."""
+    try:
+        pins = json.loads((VERIF / "harness" / "model_pins.json").read_text()).get(prop, {})
+    except (OSError, ValueError):
+        return []
+    return sorted(f for f, fp in pins.items() if source_fingerprint(REPO / f) != fp)
+
+
+EXTRA_ROUNDS = int(os.environ.get("VERIF_EXTRA_ROUNDS", "3"))
+
+
 def log(*a):
     print(*a, file=sys.stderr, flush=True)
 
@@ -388,6 +426,14 @@ def run_check(prop: str, tier: str, seed: int, replay: str | None) -> int:
             for f in sorted(cdir.glob("*.json")):
                 specs.append(json.loads(f.read_text())["spec"])
         specs.extend(mod.cases(rng, tier))
+        changed = sources_changed(prop)
+        if changed and tier == "quick" and EXTRA_ROUNDS > 0:
+            # the code the model mirrors is not the code it was written against: look harder (same generators,
+            # fresh seeds); agreement on the larger sample is still only agreement — nothing is reported for the change
+            for k in range(1, EXTRA_ROUNDS + 1):
+                specs.extend(mod.cases(random.Random(seed * 7919 + k), tier))
+            notes.append(f"note: source differs from the pinned fingerprint in {', '.join(changed)}: "
+                         f"{EXTRA_ROUNDS} extra rounds of generated cases")
 
     lines = []
     impl_obs: dict[str, str] = {}
